@@ -321,20 +321,40 @@ func phoutExtra(t *tr) string {
 	if fd := phoutFindMethod(t, "phoutAggregator", "handle"); fd == nil {
 		t.errs = append(t.errs, "(*phoutAggregator).handle not found")
 	} else {
+		// (round 6) read structurally, whatever else the function does (the control skeleton of handle is compared in
+		// Bridge/C06AggQ.lean): in statement order `X = appendPhout(…, X, …)`, then `X = append(X, <constant>)`, then a
+		// statement that calls `….Write(X)`
 		l := fd.Body.List
 		var term int64 = -1
-		ok := len(l) == 6 &&
-			phoutSrc(t, l[0]) == "a.buf = appendPhout(s, a.buf, a.config.ID)" &&
-			phoutSrc(t, l[2]) == "_, err := a.writer.Write(a.buf)" &&
-			phoutSrc(t, l[3]) == "a.buf = a.buf[:0]" &&
-			phoutSrc(t, l[4]) == "releaseSample(s)" && phoutSrc(t, l[5]) == "return err"
-		if ok {
-			if as, o := l[1].(*ast.AssignStmt); o && phoutSrc(t, as.Lhs[0]) == "a.buf" {
-				if c, o := as.Rhs[0].(*ast.CallExpr); o && phoutSrc(t, c.Fun) == "append" && len(c.Args) == 2 && phoutSrc(t, c.Args[0]) == "a.buf" {
-					term, _ = phoutConstInt(t, c.Args[1])
+		stage, lineBuf := 0, ""
+		for _, st := range l {
+			switch stage {
+			case 0:
+				if as, o := st.(*ast.AssignStmt); o && len(as.Lhs) == 1 && len(as.Rhs) == 1 {
+					if c, o := as.Rhs[0].(*ast.CallExpr); o && phoutSrc(t, c.Fun) == "appendPhout" && len(c.Args) == 3 && phoutSrc(t, c.Args[1]) == phoutSrc(t, as.Lhs[0]) {
+						lineBuf, stage = phoutSrc(t, as.Lhs[0]), 1
+					}
 				}
+			case 1:
+				if as, o := st.(*ast.AssignStmt); o && len(as.Lhs) == 1 && len(as.Rhs) == 1 && phoutSrc(t, as.Lhs[0]) == lineBuf {
+					if c, o := as.Rhs[0].(*ast.CallExpr); o && phoutSrc(t, c.Fun) == "append" && len(c.Args) == 2 && phoutSrc(t, c.Args[0]) == lineBuf {
+						if v, o := phoutConstInt(t, c.Args[1]); o {
+							term, stage = v, 2
+						}
+					}
+				}
+			case 2:
+				ast.Inspect(st, func(n ast.Node) bool {
+					if c, o := n.(*ast.CallExpr); o && len(c.Args) == 1 && phoutSrc(t, c.Args[0]) == lineBuf {
+						if sel, o := c.Fun.(*ast.SelectorExpr); o && sel.Sel.Name == "Write" {
+							stage = 3
+						}
+					}
+					return true
+				})
 			}
 		}
+		ok := stage == 3
 		if !ok || term < 0 {
 			t.fail(fd, "(*phoutAggregator).handle has an unrecognised shape")
 		}
